@@ -632,4 +632,21 @@ example : collect 5 1 g1 ⟨100, 10, 0 - 2⟩ [0, 112, 0, 0, 126, 0] = none :=
 example : (measureJitter g1 ⟨100, 10, 0⟩ [0, 110, 0]).map (fun r => (r.1.1, r.1.2.2)) =
     some (false, ⟨110, 10, 0⟩) := by decide +kernel
 
+/-- `two_deltas_roots`, second part: the zero pair is a root (and the only one) -/
+example : lfsr (lfsr 0 ((0#32).signExtend 64)) ((0#32).signExtend 64) = 0 := by decide +kernel
+
+/-- `genEntropy_value_depends_on_times`: other loop-count readings, a trailing incomplete group — the
+    same time stamps -/
+example : JitterProc.times [100, 0, 105, 0, 0, 117, 0, 0, 160, 0] =
+    JitterProc.times [100, 7, 105, 8, 9, 117, 10, 11, 160, 12, 13, 14] := by decide
+
+/-- `genEntropy_linear_timer_none` / `genEntropy_quadratic_timer_none` on reading lists that are not
+    of the form `script …` (incomplete last group) -/
+example : JitterProc.times [100, 0, 110, 0, 0, 120, 0, 5] = linearTimes 100 10 3 := by decide
+example : JitterProc.times [100, 0, 105, 0, 0, 112, 0, 3, 121, 4, 6, 7] = quadraticTimes 100 5 2 4 := by decide
+
+/-- `nextU64_extend`: a successful `next_u64` (`rounds = 1`, seven readings) -/
+example : (nextU64 g1 [100, 0, 105, 0, 0, 117, 0]).map (fun r => (r.1.1, r.2)) =
+    some (0x034bc20d8979cd71#64, []) := by decide +kernel
+
 end Rngs.Extra.JitterEntropy
